@@ -327,7 +327,7 @@ func init() {
 			return "bad-slot"
 		}
 		pv, v, st := analyzeDirect(e, decPos(a[1]))
-		s.slots["last:"+a[0]] = lastResult{pv: append([]tak.Move(nil), pv...), v: v, depth: st.Depth, canc: st.Canceled}
+		s.slots["last:"+a[0]] = lastResult{pv: append([]tak.Move(nil), pv...), v: v, depth: st.Depth, canc: st.Canceled, evals: e.evals}
 		return "ok"
 	}
 	opTable["gm"] = func(s *Session, a []string) string {
